@@ -1,10 +1,14 @@
 CONSTANTS
   NMem = 3
   Kind = "serial"
+  Honours = TRUE
 INIT AInit
 NEXT ANext
 INVARIANT CompleteMeansAllSaved
 INVARIANT SaveAfterAdd
 INVARIANT AbortLeavesRecords
+INVARIANT CancelledIsSuffix
+INVARIANT CancelledNeverAdded
+INVARIANT EveryRunEnds
 PROPERTY AbortedStaysAborted
 CHECK_DEADLOCK FALSE
